@@ -58,6 +58,11 @@ add("C14", "runtime monitor: every attendance pass and callback invocation of a 
     "Cadence is judged at whole seconds (less than 1 s from the boundary is 'either'); the first notification may come at once or one interval after subscribing; object validity is far longer than the histories.",
     "DESIGN.md 3/C14")
 
+add("C09", "runtime monitor: independent chain checker re-verifying every stored certificate after every library operation; acceptance and issuing grids",
+    "Exploration: (S) histories of add-root/AA/AT/own, verify_sequence_of_certificates (1-3 certificates) and received signed messages draw from a pool of genuine certificates and hostile ones (attacker root/AA/AT, AT re-signed by a foreign key while claiming the genuine AA, tampered permissions, mis-issued escalated AT signed with the real AA key, signature bit flip, self-signed AT, wrong issuer object); after every operation all library dictionaries are walked and each certificate is re-verified up to the operator-configured roots by an independent checker (python-ecdsa on the OER image, own containment arithmetic), and the root store must not change. (V) a genuine ticket signs messages for ITS-AIDs inside/outside its permissions and generation times before/within/after validity windows of 30 s..10 years. (I) the issuing API is exercised over issuer permission sets (all/explicit), chain budgets 0..3, 0-2 intermediate CAs and ticket PSID sets.",
+    "The OER codec (asn1tools + the ASN.1 module) and python-ecdsa are trusted; only roots given to add_root_certificate by the harness count as configured.",
+    "DESIGN.md 3/C09")
+
 NOT_YET = "check not built yet (work in progress; runtime monitor planned in DESIGN.md section 3)"
 
 def main():
